@@ -1401,6 +1401,8 @@ impl Engine {
             ResumeMode::Raw(a, b, c) => ((*a as u128) * 1_000_000, (*b as u128) * 1_000_000, *c as u128),
             ResumeMode::One(w, k) => match w % 3 {
                 0 => (n0, l0, *k as u128),
+                // (with no LST outstanding a larger staked total would be ownerless stake: that is `ZeroLst`'s job)
+                1 if l0 == 0 => (n0, l0, *k as u128),
                 1 => (n0 + *k as u128, l0, r0),
                 _ => (n0, if l0 == 0 { 0 } else { l0 + *k as u128 }, r0),
             },
